@@ -165,6 +165,34 @@ def slot_ra_part():
         record(f"TLC finds a race / racy deallocation on SlotRA when {k} is set to {v}", not r.ok)
 
 
+def crw_part():
+    import copy as _copy
+    import crwdefs
+    st = orderings.extract_crw()
+    for k in ("BumpUnderLock", "RefreshUnderLock"):
+        s2 = dict(st)
+        s2[k] = False
+        mod, cfg = crwdefs.write_mc("st_" + k, s2, ["t1", "t2", "t3"], 6, 3, WD)
+        r = run_tlc(mod, cfg, WD, workers=8, timeout=900)
+        record(f"TLC finds a send missing a completed connect on CachedRwLock when {k} is FALSE", not r.ok)
+    runs = crwdefs.harness(dict(programs=[[["connect", "send", "connect", "send"], ["send", "connect", "send", "send"]]],
+                                repeat=2), WD, "st_crw")
+    base = runs[0]
+    a, rej, _ = crwdefs.validate(st, ["t1", "t2"], [base], WD, "st_crw0")
+    record("CachedRwLock_Trace accepts a recorded execution of real threads on port clones", a == 1 and not rej)
+    k = [i for i, e in enumerate(base) if e["ev"] == "se"][-1]
+    for lab, f in (("a send that reached an unknown sink", lambda e: e.__setitem__("res", e["res"] + [99])),
+                   ("a send that missed a completed connection", lambda e: e.__setitem__("res", []))):
+        b = _copy.deepcopy(base)
+        f(b[k])
+        a, rej, _ = crwdefs.validate(st, ["t1", "t2"], [b], WD, "st_crw1")
+        record(f"CachedRwLock_Trace rejects {lab}", a == 0 and len(rej) == 1)
+    b = _copy.deepcopy(base)
+    del b[[i for i, e in enumerate(b) if e["ev"] == "ce"][0]]
+    a, rej, _ = crwdefs.validate(st, ["t1", "t2"], [b], WD, "st_crw2")
+    record("CachedRwLock_Trace rejects a trace with a dropped event", a == 0 and len(rej) == 1)
+
+
 def pool_part():
     import check_pool
     import pooldefs
@@ -271,6 +299,7 @@ def run():
     ordering_part()
     queue_ra_part()
     slot_ra_part()
+    crw_part()
     pool_part()
     chan_part()
     coverage_part()
